@@ -126,7 +126,7 @@ class ShellSpec:
     """Plain description of a shell; builds the gbasis object and the protocol tokens."""
 
     def __init__(self, l, center, exps, coeffs, sph=False, cart=None, sphord=None, unit_norm=True,
-                 icenter=None):
+                 icenter=None, via_update=False):
         self.l = int(l)
         self.center = [float(c) for c in center]
         self.exps = [float(e) for e in exps]
@@ -139,11 +139,14 @@ class ShellSpec:
         self.sphord = sphord  # None = default, else list of label strings
         self.unit_norm = unit_norm
         self.icenter = icenter
+        # via_update: the gbasis object is first constructed with other exponents / coefficients / centre and then brought to
+        # these parameters through the public setters followed by assign_norm_cont() (must be indistinguishable)
+        self.via_update = bool(via_update)
 
     def copy(self, **kw):
         d = dict(l=self.l, center=list(self.center), exps=list(self.exps), coeffs=self.coeffs.copy(),
                  sph=self.sph, cart=self.cart, sphord=self.sphord, unit_norm=self.unit_norm,
-                 icenter=self.icenter)
+                 icenter=self.icenter, via_update=self.via_update)
         d.update(kw)
         return ShellSpec(**d)
 
@@ -204,6 +207,17 @@ class ShellSpec:
                         self.norm_cont = np.ones((self.coeffs.shape[1], n))
 
             cls = ConvShell
+        if self.via_update:
+            n = len(self.exps)
+            sh = cls(self.l, np.array(self.center, dtype=float) + 0.375,
+                     self.coeffs * np.linspace(0.5, 1.5, n)[:, None],
+                     np.array(self.exps, dtype=float) * np.linspace(1.75, 0.625, n),
+                     "spherical" if self.sph else "cartesian", icenter=self.icenter)
+            sh.exps = np.array(self.exps, dtype=float)
+            sh.coeffs = self.coeffs.copy()
+            sh.coord = np.array(self.center, dtype=float)
+            sh.assign_norm_cont()
+            return sh
         return cls(self.l, np.array(self.center, dtype=float), self.coeffs.copy(),
                    np.array(self.exps, dtype=float), "spherical" if self.sph else "cartesian",
                    icenter=self.icenter)
@@ -211,12 +225,13 @@ class ShellSpec:
     def describe(self):
         return {"l": self.l, "center": self.center, "exps": self.exps,
                 "coeffs": self.coeffs.tolist(), "sph": self.sph, "cart": self.cart,
-                "sphord": self.sphord, "unit_norm": self.unit_norm}
+                "sphord": self.sphord, "unit_norm": self.unit_norm, "via_update": self.via_update}
 
     @staticmethod
     def from_desc(d):
         return ShellSpec(d["l"], d["center"], d["exps"], d["coeffs"], d.get("sph", False),
-                         d.get("cart"), d.get("sphord"), d.get("unit_norm", True))
+                         d.get("cart"), d.get("sphord"), d.get("unit_norm", True),
+                         via_update=d.get("via_update", False))
 
 
 def basis_tokens(specs):
@@ -284,11 +299,17 @@ def rand_shell(rng, l, centers, nprim=None, nseg=None, sph=None, exp_lo=0.02, ex
         if all(abs(e - x) > 1e-3 * x for x in exps):
             exps.append(e)
     coeffs = [[rand_coeff(rng) for _ in range(nseg)] for _ in range(nprim)]
+    if nprim >= 2 and nseg >= 2 and int(exps[0] * 1e6) % 3 == 0:
+        # general contractions of published basis sets (cc-pVXZ, ANO) carry exact zeros: an uncontracted column / a primitive
+        # that enters only some columns (no extra PRNG draw)
+        coeffs[nprim - 1][0] = 0.0
+        coeffs[0][nseg - 1] = 0.0
     c = rand_center(rng, centers)
     centers.append(c)
     if sph is None:
         sph = rng.random() < 0.5
-    return ShellSpec(l, c, exps, coeffs, sph=sph)
+    # about one shell in five reaches its parameters through the public setters + assign_norm_cont (no extra PRNG draw)
+    return ShellSpec(l, c, exps, coeffs, sph=sph, via_update=(int(exps[0] * 1e6) % 5 == 0))
 
 
 # ----------------------------------------------------------------------------------------------
